@@ -324,7 +324,8 @@ def rule_clamp(ctx):
     defs = cb.defs().get(l, [])
     while len(defs) == 1 and defs[0][0] == 'assign' and defs[0][3]['k'] == 'use' and \
             defs[0][3]['op']['k'] in ('copy', 'move') and not defs[0][3]['op']['place']['p'] and \
-            len(cb.defs().get(defs[0][3]['op']['place']['l'], [])) > 1:
+            len(cb.defs().get(defs[0][3]['op']['place']['l'], [])) >= 1 and \
+            not (1 <= defs[0][3]['op']['place']['l'] <= cb.arg_count):
         l = defs[0][3]['op']['place']['l']
         defs = cb.defs().get(l, [])
     if not defs:
@@ -375,6 +376,9 @@ def rule_clamp(ctx):
         cmp_rels = [r for r in rels if r[0] in ('lt', 'le') and ((is_end(r[1]) and is_maxknown(r[2])) or (is_maxknown(r[1]) and is_end(r[2])))]
         none_fact = any(f[0] == 'is' and is_end(f[1]) and f[2] == ('None',) for f in rels)
         some_fact = any(f[0] == 'is' and is_end(f[1]) and 'Some' in f[2] for f in rels)
+        if peel(v, calls=False)[0] == 'phi':
+            # a value chosen elsewhere and only copied here: judging the join as one value would accept anything
+            raise Unrecognised('clamp', 'max_height is a join of several values that could not be split: %s' % show(v)[:200])
         if is_end(v) and not is_maxknown(v):
             # must hold: end < max_known (or <=)
             ok = any(is_end(r[1]) and is_maxknown(r[2]) for r in cmp_rels)
